@@ -10,7 +10,8 @@ use crate::seam::{self, SysRec, raw};
 use crate::worker::{Violation, WorkerResult, WorkerSpec, add, bump};
 use bugstalker::debugger::address::{Address, RelocatedAddress};
 use bugstalker::debugger::process::Child;
-use bugstalker::debugger::register::debug::BreakCondition;
+use bugstalker::debugger::register::debug::{BreakCondition, BreakSize};
+use bugstalker::debugger::variable::dqe::Literal;
 use bugstalker::debugger::variable::value::Value;
 use bugstalker::debugger::{Debugger, DebuggerBuilder, Error, EventHook, FunctionInfo, PlaceDescriptor, StopReason};
 use nix::sys::signal::Signal;
@@ -90,6 +91,13 @@ pub enum Op {
     Next,
     Finish,
     Restart,
+    Call(String, Vec<i64>),
+    CallBad(u8),
+    WatchMem(u64, u8, bool),
+    RmWatchNum(u32),
+    RmWatchAddr(u64),
+    Detach,
+    Drop,
 }
 
 #[derive(Debug)]
@@ -119,6 +127,15 @@ fn stop_kind(r: &StopReason) -> StopKind {
     }
 }
 
+#[derive(Default)]
+pub struct Pre {
+    regs: Option<libc::user_regs_struct>,
+    maps: String,
+    calln: Option<u64>,
+    snapshot: Vec<(u32, u64)>,
+    dr: Option<[u64; 8]>,
+}
+
 pub struct Session<'a> {
     pub dbg: Option<Debugger>,
     pub pid: i32,
@@ -145,6 +162,14 @@ pub struct Session<'a> {
     pub allowed_internal: BTreeSet<u64>,
     pub exit_code: Option<i32>,
     pub restarts: u32,
+    /// TICK offset caused by debugger-initiated calls of ticking functions
+    pub tick_delta: u64,
+    pub data: BTreeMap<String, u64>,
+    /// model: active watchpoints number -> (addr, size, rw)
+    pub watches: BTreeMap<u32, (u64, u8, bool)>,
+    pub calls_made: u64,
+    pub detached: bool,
+    pub detach_ledger: Option<Vec<String>>,
 }
 
 fn err_str(e: &Error) -> String {
@@ -194,6 +219,12 @@ impl<'a> Session<'a> {
             allowed_internal,
             exit_code: None,
             restarts: 0,
+            tick_delta: 0,
+            data: info.data.iter().map(|(k, v)| (k.clone(), tr.base + v)).collect(),
+            watches: BTreeMap::new(),
+            calls_made: 0,
+            detached: false,
+            detach_ledger: None,
         })
     }
 
@@ -210,6 +241,12 @@ impl<'a> Session<'a> {
     }
     fn off(&self, a: u64) -> String {
         if self.tr.in_text(a) { format!("+{:x}", a - self.tr.base) } else { format!("{a:#x}") }
+    }
+    fn sym_off(&self, a: u64) -> String {
+        match self.data.iter().filter(|(_, v)| **v <= a).max_by_key(|(_, v)| **v) {
+            Some((n, v)) if a - v < 4096 => format!("{n}+{}", a - v),
+            _ => format!("{a:#x}"),
+        }
     }
     fn abs(&self, a: Address) -> u64 {
         match a {
@@ -234,7 +271,7 @@ impl<'a> Session<'a> {
             Ok(r) => r,
             Err(_) => return (Where::Exited, None),
         };
-        let tick = ns::read_u64(self.pid, self.tr.tick_addr).unwrap_or(u64::MAX);
+        let tick = ns::read_u64(self.pid, self.tr.tick_addr).unwrap_or(u64::MAX).wrapping_sub(self.tick_delta);
         let t = (regs.rip, regs.rsp, tick);
         if !self.tr.in_text(regs.rip) {
             // last index definitely executed: all positions with a smaller tick
@@ -261,13 +298,18 @@ impl<'a> Session<'a> {
         let desc = match op {
             Op::BpAddr(a) => format!("BpAddr({})", self.off(*a)),
             Op::RmAddr(a) => format!("RmAddr({})", self.off(*a)),
+            Op::WatchMem(a, sz, rw) => format!("WatchMem({} {sz} {})", self.sym_off(*a), if *rw { "rw" } else { "w" }),
+            Op::RmWatchAddr(a) => format!("RmWatchAddr({})", self.sym_off(*a)),
             _ => format!("{op:?}"),
         };
         let name = format!("{op:?}");
         let opname = name.split('(').next().unwrap().to_string();
         bump(&mut self.stats, &format!("op.{opname}"));
+        let pre = self.pre_state(op);
         let mut dbg = self.dbg.take().unwrap();
+        let t_op = std::time::Instant::now();
         let outcome = self.run_op(&mut dbg, op);
+        add(&mut self.stats, "time_us.debugger_ops", t_op.elapsed().as_micros() as u64);
         self.dbg = Some(dbg);
         let evs: Vec<Ev> = self.events.0.borrow()[ev0..].to_vec();
         let hist = seam::history_since(h0);
@@ -306,7 +348,15 @@ impl<'a> Session<'a> {
             o => format!("{o:?}"),
         };
         self.logf(format!("{:3} {desc} -> {oc} @ {wh} ev={}", self.step_no, evs.len()));
-        self.check(op, before, &outcome, &evs, &hist, obs);
+        if matches!(op, Op::Call(..)) && std::path::Path::new("/verif/scratch/DEBUG").exists() {
+            for h in &hist {
+                match h {
+                    SysRec::Ptrace { req, pid, addr, data, ret, errno } => eprintln!("  ptrace req={req:#x} pid={pid} addr={addr:#x} data={data:#x} ret={ret:#x} errno={errno}"),
+                    SysRec::Wait { pid, ret, status, .. } => eprintln!("  wait pid={pid} ret={ret} status={status:#x}"),
+                }
+            }
+        }
+        self.check(op, before, &outcome, &evs, &hist, obs, &pre);
         self.drain_output();
     }
 
@@ -344,6 +394,7 @@ impl<'a> Session<'a> {
                 Ok(p) => {
                     self.pid = p.as_raw();
                     self.restarts += 1;
+                    self.tick_delta = 0;
                     Outcome::Done
                 }
                 Err(e) => Outcome::Err(err_str(&e)),
@@ -377,6 +428,81 @@ impl<'a> Session<'a> {
                 }
                 Err(e) => Outcome::Err(err_str(&e)),
             },
+            Op::Call(f, args) => {
+                let lits: Vec<Literal> = args.iter().map(|v| Literal::Int(*v)).collect();
+                let lits = if f == "probe6" && lits.len() == 6 {
+                    let mut l = lits;
+                    l[4] = Literal::Bool(args[4] != 0);
+                    l
+                } else {
+                    lits
+                };
+                unit(dbg.call(f, &lits))
+            }
+            Op::CallBad(k) => {
+                let r = match k {
+                    0 => dbg.call("probe2", &[Literal::Int(1)]),
+                    1 => dbg.call("no_such_function_xyz", &[Literal::Int(1)]),
+                    2 => dbg.call("probe2", &[Literal::String("a".into()), Literal::Int(2)]),
+                    3 => dbg.call("probe6", &[Literal::Int(1), Literal::Int(1), Literal::Int(1), Literal::Int(1), Literal::Int(1), Literal::Int(1), Literal::Int(1)]),
+                    _ => dbg.call("probe0", &[Literal::Int(1)]),
+                };
+                unit(r)
+            }
+            Op::WatchMem(a, sz, rw) => {
+                let size = match sz {
+                    1 => BreakSize::Bytes1,
+                    2 => BreakSize::Bytes2,
+                    4 => BreakSize::Bytes4,
+                    _ => BreakSize::Bytes8,
+                };
+                let cond = if *rw { BreakCondition::DataReadsWrites } else { BreakCondition::DataWrites };
+                match dbg.set_watchpoint_on_memory(RelocatedAddress::from(*a), size, cond, false) {
+                    Ok(v) => {
+                        self.watches.insert(v.number, (*a, *sz, *rw));
+                        Outcome::Done
+                    }
+                    Err(e) => Outcome::Err(err_str(&e)),
+                }
+            }
+            Op::RmWatchNum(n) => match dbg.remove_watchpoint_by_number(*n) {
+                Ok(v) => {
+                    let got = v.map(|v| v.number);
+                    let exp = self.watches.remove(n).map(|_| *n);
+                    if got != exp {
+                        self.violate("C14", "remove_result", format!("remove watchpoint #{n}: debugger removed {got:?}, model {exp:?}"));
+                    }
+                    Outcome::Done
+                }
+                Err(e) => Outcome::Err(err_str(&e)),
+            },
+            Op::RmWatchAddr(a) => match dbg.remove_watchpoint_by_addr(RelocatedAddress::from(*a)) {
+                Ok(v) => {
+                    let got = v.map(|v| v.number);
+                    let exp = self.watches.iter().find(|(_, w)| w.0 == *a).map(|(n, _)| *n);
+                    if let Some(n) = exp {
+                        self.watches.remove(&n);
+                    }
+                    if got != exp {
+                        self.violate("C14", "remove_result", format!("remove watchpoint at {}: debugger removed {got:?}, model {exp:?}", self.sym_off(*a)));
+                    }
+                    Outcome::Done
+                }
+                Err(e) => Outcome::Err(err_str(&e)),
+            },
+            Op::Detach => {
+                crate::seam::install_world(Box::new(DetachProbe { pid: self.pid, done: false, report: None }));
+                let r = dbg.detach();
+                if let Some(w) = crate::seam::take_world() {
+                    let mut w = w;
+                    if let Some(p) = w.as_any().downcast_mut::<DetachProbe>() {
+                        self.detach_ledger = p.report.take();
+                    }
+                }
+                self.detached = true;
+                unit(r)
+            }
+            Op::Drop => Outcome::Done, // handled by the caller (the debugger is dropped)
             Op::RmAddr(a) => {
                 let started = !matches!(self.pos, Where::NotStarted);
                 let addr = if started { Address::Relocated(RelocatedAddress::from(*a)) } else { Address::Relocated(RelocatedAddress::from(*a)) };
@@ -447,19 +573,63 @@ impl<'a> Session<'a> {
 
     // ------------------------------------------------------------------ oracles
 
-    fn check(&mut self, op: &Op, before: Where, outcome: &Outcome, evs: &[Ev], hist: &[SysRec], obs: Option<(u64, u64, u64)>) {
+    fn pre_state(&mut self, op: &Op) -> Pre {
+        let mut p = Pre::default();
+        let started = !matches!(self.pos, Where::NotStarted | Where::Exited);
+        if !started {
+            return p;
+        }
         match op {
+            Op::Call(..) | Op::CallBad(_) => {
+                p.regs = raw::getregs(self.pid).ok();
+                p.maps = std::fs::read_to_string(format!("/proc/{}/maps", self.pid)).unwrap_or_default();
+                p.calln = self.data.get("CALLN").and_then(|a| ns::read_u64(self.pid, *a));
+            }
+            Op::Restart => {
+                p.snapshot = self.dbg.as_ref().unwrap().breakpoints_snapshot().iter().map(|b| (b.number, self.abs(b.addr))).collect();
+            }
+            Op::WatchMem(..) => {
+                p.dr = self.read_dr();
+            }
+            _ => {}
+        }
+        p
+    }
+
+    fn read_dr(&self) -> Option<[u64; 8]> {
+        let mut d = [0u64; 8];
+        for (i, slot) in d.iter_mut().enumerate() {
+            if i == 4 || i == 5 {
+                continue;
+            }
+            *slot = raw::peek(seam::PTRACE_PEEKUSER, self.pid, DR_OFFSET + 8 * i as u64).ok()?;
+        }
+        Some(d)
+    }
+
+    fn check(&mut self, op: &Op, before: Where, outcome: &Outcome, evs: &[Ev], hist: &[SysRec], obs: Option<(u64, u64, u64)>, pre: &Pre) {
+        match op {
+            Op::Call(..) | Op::CallBad(_) => self.check_call(op, before, outcome, pre),
+            Op::WatchMem(a, sz, rw) => self.check_watch_add(*a, *sz, *rw, outcome, pre),
+            Op::Detach => self.check_detach(outcome),
             Op::Start | Op::Continue => self.check_continue(op, before, outcome, evs, obs),
             Op::Stepi | Op::Step | Op::Next | Op::Finish => self.check_step(op, before, outcome, evs, obs),
-            Op::Restart => self.check_restart(outcome),
+            Op::Restart => self.check_restart(outcome, pre),
             _ => {}
         }
         if !matches!(self.pos, Where::NotStarted | Where::Exited) {
+            let t0 = std::time::Instant::now();
             self.check_ledger();
-            self.check_pokes(hist);
+            add(&mut self.stats, "time_us.ledger", t0.elapsed().as_micros() as u64);
+            if !matches!(op, Op::Call(..) | Op::CallBad(_)) {
+                self.check_pokes(hist);
+            }
+            self.check_debug_registers();
         }
         if let Where::At(j) = self.pos {
+            let t0 = std::time::Instant::now();
             self.check_backtrace(j);
+            add(&mut self.stats, "time_us.backtrace", t0.elapsed().as_micros() as u64);
         }
     }
 
@@ -810,8 +980,265 @@ impl<'a> Session<'a> {
         }
     }
 
-    fn check_restart(&mut self, outcome: &Outcome) {
-        let _ = outcome;
+    /// C11: restart keeps every user breakpoint (number and place) and the new process stops
+    /// where the reference execution says.
+    fn check_restart(&mut self, outcome: &Outcome, pre: &Pre) {
+        if matches!(outcome, Outcome::Err(_)) {
+            self.violate("C11", "restart_failed", format!("restart returned {outcome:?}"));
+            return;
+        }
+        bump(&mut self.stats, "c11.restart_checked");
+        self.tick_delta = 0;
+        self.calls_made = 0;
+        // global watchpoints survive, the model keeps them; nothing else to reset
+        if !pre.snapshot.is_empty() || matches!(self.pos, Where::At(_)) {
+            let now: Vec<(u32, u64)> = self.dbg.as_ref().unwrap().breakpoints_snapshot().iter().map(|b| (b.number, self.abs(b.addr))).collect();
+            let a: BTreeSet<(u32, u64)> = pre.snapshot.iter().copied().collect();
+            let b: BTreeSet<(u32, u64)> = now.iter().copied().collect();
+            if !pre.snapshot.is_empty() && a != b {
+                self.violate("C11", "restart_breakpoints_changed", format!("breakpoints before restart {a:x?}, after {b:x?}"));
+            }
+        }
+        let bset = self.armed_set();
+        let expected = self.tr.next_in(None, &bset);
+        match (expected, self.pos) {
+            (Some(j), Where::At(k)) if j == k => {
+                bump(&mut self.stats, "c11.restart_stop_matches_reference");
+            }
+            (None, Where::Exited) => {}
+            (e, p) => {
+                self.violate("C11", "restart_stop", format!("after restart expected ref index {e:?}, real position {p:?}"));
+            }
+        }
+    }
+
+    /// C16: an injected call runs once with exactly its arguments and leaves no trace.
+    fn check_call(&mut self, op: &Op, before: Where, outcome: &Outcome, pre: &Pre) {
+        if matches!(before, Where::NotStarted | Where::Exited) {
+            if !matches!(outcome, Outcome::Err(_)) {
+                self.violate("C11", "wrong_state_accepted", format!("{op:?} in state {before:?} returned {outcome:?}"));
+            }
+            return;
+        }
+        bump(&mut self.stats, "c16.call_checked");
+        let calln_after = self.data.get("CALLN").and_then(|a| ns::read_u64(self.pid, *a));
+        let made = match (pre.calln, calln_after) {
+            (Some(a), Some(b)) => b.wrapping_sub(a),
+            _ => 0,
+        };
+        if std::path::Path::new("/verif/scratch/DEBUG").exists() {
+            eprintln!("call {op:?}: calln {:?} -> {:?}, tick raw {:?}, regs before rip {:x?} after {:x?}", pre.calln, calln_after, ns::read_u64(self.pid, self.tr.tick_addr), pre.regs.map(|r| (r.rip, r.rsp)), raw::getregs(self.pid).ok().map(|r| (r.rip, r.rsp)));
+        }
+        self.tick_delta += made;
+        self.calls_made += made;
+        // the program is where it was
+        let from = match before {
+            Where::At(i) => i,
+            Where::Foreign { lb, .. } => lb,
+            _ => 0,
+        };
+        if let Where::At(i) = before {
+            let (w, t) = self.observe(from);
+            if w != Where::At(i) {
+                self.violate("C16", "position_changed", format!("after {op:?} the program is at {w:?} {t:x?}, was at ref index {i}"));
+            }
+            self.pos = before;
+        }
+        if let (Some(a), Ok(b)) = (pre.regs, raw::getregs(self.pid)) {
+            let ab: [u8; std::mem::size_of::<libc::user_regs_struct>()] = unsafe { std::mem::transmute(a) };
+            let bb: [u8; std::mem::size_of::<libc::user_regs_struct>()] = unsafe { std::mem::transmute(b) };
+            if ab != bb {
+                let names = ["r15", "r14", "r13", "r12", "rbp", "rbx", "r11", "r10", "r9", "r8", "rax", "rcx", "rdx", "rsi", "rdi", "orig_rax", "rip", "cs", "eflags", "rsp", "ss", "fs_base", "gs_base", "ds", "es", "fs", "gs"];
+                let diff: Vec<String> = (0..27).filter(|k| ab[k * 8..k * 8 + 8] != bb[k * 8..k * 8 + 8]).map(|k| names[k].to_string()).collect();
+                // orig_rax is bookkeeping of the kernel's syscall restart logic, not program state
+                if diff.iter().any(|d| d != "orig_rax") {
+                    self.violate("C16", "registers_not_restored", format!("after {op:?} registers differ: {diff:?}"));
+                }
+            }
+        }
+        let maps_after = std::fs::read_to_string(format!("/proc/{}/maps", self.pid)).unwrap_or_default();
+        if maps_after != pre.maps {
+            self.violate("C16", "maps_changed", format!("after {op:?} /proc/maps changed"));
+        }
+        match op {
+            Op::Call(f, args) => {
+                if let Outcome::Err(e) = outcome {
+                    self.violate("C16", "call_refused", format!("{op:?} failed: {e}"));
+                    return;
+                }
+                bump(&mut self.stats, "c16.call_succeeded");
+                if made != 1 {
+                    self.violate("C16", "call_count", format!("{op:?}: callee ran {made} times"));
+                    return;
+                }
+                let n = pre.calln.unwrap_or(0);
+                if n < 16 {
+                    let base = self.data["CALLLOG"] + n * 64;
+                    let row: Vec<u64> = (0..7).map(|k| ns::read_u64(self.pid, base + 8 * k).unwrap_or(u64::MAX)).collect();
+                    let a = |k: usize| args.get(k).copied().unwrap_or(0);
+                    let exp: Vec<u64> = match f.as_str() {
+                        "probe0" => vec![100, 0, 0, 0, 0, 0, 0],
+                        "probe2" => vec![102, a(0) as u64, a(1) as u64, 0, 0, 0, 0],
+                        "probe3" => vec![103, a(0) as u64, a(1) as u32 as u64, a(2) as u8 as u64, 0, 0, 0],
+                        _ => vec![106, a(0) as u64, a(1) as i32 as i64 as u64, a(2) as u16 as u64, a(3) as i8 as i64 as u64, (a(4) != 0) as u64, a(5) as u64],
+                    };
+                    if row != exp {
+                        if std::path::Path::new("/verif/scratch/DEBUG").exists() {
+                            for q in 0..6u64 {
+                                let r: Vec<u64> = (0..7).map(|k| ns::read_u64(self.pid, self.data["CALLLOG"] + q * 64 + 8 * k).unwrap_or(u64::MAX)).collect();
+                                eprintln!("row {q}: {r:x?}  (n={n} after={calln_after:?})");
+                            }
+                        }
+                        self.violate("C16", "call_arguments", format!("{op:?}: callee logged {row:x?}, expected {exp:x?}"));
+                    }
+                }
+            }
+            _ => {
+                bump(&mut self.stats, "c16.bad_call_checked");
+                if !matches!(outcome, Outcome::Err(_)) {
+                    self.violate("C16", "bad_call_accepted", format!("{op:?} returned {outcome:?}"));
+                }
+                if made != 0 {
+                    self.violate("C16", "bad_call_ran", format!("{op:?}: a callee ran {made} times"));
+                }
+            }
+        }
+    }
+
+    /// C14: refusal rules of watchpoint creation.
+    fn check_watch_add(&mut self, a: u64, sz: u8, _rw: bool, outcome: &Outcome, pre: &Pre) {
+        if matches!(self.pos, Where::NotStarted | Where::Exited) {
+            return;
+        }
+        bump(&mut self.stats, "c14.add_checked");
+        // the op already inserted on success: compute the model's verdict from the rest
+        let others: Vec<(u64, u8, bool)> = match outcome {
+            Outcome::Done => {
+                let newest = self.watches.keys().max().copied();
+                self.watches.iter().filter(|(n, _)| Some(**n) != newest).map(|(_, w)| *w).collect()
+            }
+            _ => self.watches.values().copied().collect(),
+        };
+        let dup = others.iter().any(|w| w.0 == a);
+        let full = others.len() >= 4;
+        let misaligned = a % sz as u64 != 0;
+        let should_fail = dup || full || misaligned;
+        match (outcome, should_fail) {
+            (Outcome::Done, true) => {
+                self.violate("C14", "add_accepted", format!("watchpoint at {} size {sz} accepted although dup={dup} full={full} misaligned={misaligned}", self.sym_off(a)));
+            }
+            (Outcome::Err(e), false) => {
+                self.violate("C14", "add_refused", format!("watchpoint at {} size {sz} refused: {e}", self.sym_off(a)));
+            }
+            (Outcome::Err(_), true) => {
+                bump(&mut self.stats, if full { "c14.fifth_refused" } else if dup { "c14.duplicate_refused" } else { "c14.misaligned_refused" });
+                // refused without side effects
+                if let (Some(b), Some(n)) = (pre.dr, self.read_dr()) {
+                    // what counts: the control register and the address of every enabled slot
+                    // (a stale address in a disabled slot encodes nothing)
+                    let en = |d: &[u64; 8]| -> Vec<(usize, u64)> { (0..4).filter(|k| d[7] >> (2 * k) & 3 != 0).map(|k| (k, d[k])).collect() };
+                    if b[7] != n[7] || en(&b) != en(&n) {
+                        self.violate("C14", "refused_add_side_effect", format!("debug registers changed by a refused add: {b:x?} -> {n:x?}"));
+                    }
+                }
+            }
+            _ => {}
+        }
+    }
+
+    /// C14: the debug registers of the thread encode exactly the active watchpoints.
+    fn check_debug_registers(&mut self) {
+        let Some(dr) = self.read_dr() else { return };
+        bump(&mut self.stats, "c14.dr_image_checked");
+        if !self.watches.is_empty() {
+            bump(&mut self.stats, "c14.dr_image_checked_nonempty");
+        }
+        // debugger's own list = model
+        let list: BTreeSet<(u32, u64)> = self.dbg.as_ref().unwrap().watchpoint_list().iter().map(|w| (w.number, w.address.as_u64())).collect();
+        let model: BTreeSet<(u32, u64)> = self.watches.iter().map(|(n, w)| (*n, w.0)).collect();
+        if list != model {
+            self.violate("C14", "list_mismatch", format!("watchpoint_list {list:x?} != model {model:x?}"));
+            return;
+        }
+        let dr7 = dr[7];
+        let mut enabled: Vec<(u64, u8, bool)> = vec![];
+        for k in 0..4 {
+            let l = dr7 >> (2 * k) & 1;
+            let g = dr7 >> (2 * k + 1) & 1;
+            if l == 0 && g == 0 {
+                continue;
+            }
+            let rw = dr7 >> (16 + 4 * k) & 3;
+            let len = dr7 >> (18 + 4 * k) & 3;
+            let sz = match len {
+                0 => 1,
+                1 => 2,
+                3 => 4,
+                _ => 8,
+            };
+            if rw != 1 && rw != 3 {
+                self.violate("C14", "dr7_condition", format!("slot {k} enabled with RW={rw:#b} (DR7 {dr7:#x})"));
+            }
+            enabled.push((dr[k as usize], sz, rw == 3));
+        }
+        let mut e = enabled.clone();
+        e.sort();
+        let mut m: Vec<(u64, u8, bool)> = self.watches.values().copied().collect();
+        m.sort();
+        if e != m {
+            self.violate("C14", "dr_image", format!("debug registers encode {e:x?} (DR7 {dr7:#x}, DR0-3 {:x?}) but active watchpoints are {m:x?}", &dr[..4]));
+        }
+    }
+
+    /// C02/C11: detach leaves no patch, no hardware breakpoint, and a process that completes
+    /// as it would have natively.
+    fn check_detach(&mut self, outcome: &Outcome) {
+        if matches!(self.pos, Where::NotStarted) {
+            return;
+        }
+        bump(&mut self.stats, "c11.detach_checked");
+        if let Outcome::Err(e) = outcome {
+            self.violate("C11", "detach_failed", format!("detach: {e}"));
+        }
+        match self.detach_ledger.take() {
+            Some(rep) if rep.is_empty() => bump(&mut self.stats, "c02.detach_ledger_clean"),
+            Some(rep) => self.violate("C02", "patch_left_at_detach", rep.join("; ")),
+            None => {
+                if self.pos != Where::Exited {
+                    self.violate("C11", "no_detach_syscall", "detach returned without PTRACE_DETACH of the process".into());
+                }
+            }
+        }
+        if self.pos == Where::Exited {
+            return;
+        }
+        // the released process must run to completion with the native result
+        let mut st = 0i32;
+        let t0 = std::time::Instant::now();
+        let mut done = false;
+        while t0.elapsed().as_secs() < 10 {
+            let r = raw::wait4(self.pid, &mut st, libc::WNOHANG | libc::__WALL);
+            if r == self.pid && (libc::WIFEXITED(st) || libc::WIFSIGNALED(st)) {
+                done = true;
+                break;
+            }
+            if r < 0 {
+                break;
+            }
+            std::thread::yield_now();
+        }
+        if !done {
+            let state = ns::task_state(self.pid, self.pid);
+            self.violate("C11", "detached_process_stuck", format!("detached process did not finish (state {state})"));
+            unsafe { libc::kill(self.pid, libc::SIGKILL) };
+        } else if self.restarts == 0 && self.calls_made == 0 {
+            let code = if libc::WIFEXITED(st) { libc::WEXITSTATUS(st) } else { -libc::WTERMSIG(st) };
+            self.exit_code = Some(code);
+            if code != self.tr.exit_code {
+                self.violate("C02", "exit_status_differs", format!("detached process ended with {code}, native {}", self.tr.exit_code));
+            }
+        }
+        self.pos = Where::Exited;
     }
 
     /// C02 (i): every file-backed executable mapping equals the file, except 0xCC at allowed
@@ -990,6 +1417,55 @@ impl<'a> Session<'a> {
     }
 }
 
+/// World hook active during `detach`: at the first real PTRACE_DETACH (tracee still stopped)
+/// the text of the process and its debug registers are read by the harness.
+struct DetachProbe {
+    pid: i32,
+    done: bool,
+    report: Option<Vec<String>>,
+}
+impl seam::World for DetachProbe {
+    fn before_ptrace(&mut self, req: u32, _pid: i32, _addr: u64, _data: u64) {
+        if req != seam::PTRACE_DETACH || self.done {
+            return;
+        }
+        self.done = true;
+        let mut rep = vec![];
+        for m in ns::maps(self.pid).iter().filter(|m| m.perms.contains('x') && m.path.starts_with('/')) {
+            let Ok(file) = std::fs::read(&m.path) else { continue };
+            let len = (m.end - m.start) as usize;
+            let Some(mem) = ns::read_mem(self.pid, m.start, len) else { continue };
+            let off = m.offset as usize;
+            if off >= file.len() {
+                continue;
+            }
+            let cmp = len.min(file.len() - off);
+            for k in 0..cmp {
+                if mem[k] != file[off + k] {
+                    rep.push(format!("text byte {:#x} ({}+{:#x}) is {:#04x}, file has {:#04x}", m.start + k as u64, m.path, off + k, mem[k], file[off + k]));
+                    if rep.len() > 16 {
+                        break;
+                    }
+                }
+            }
+        }
+        for t in ns::tasks(self.pid) {
+            if let Ok(dr7) = raw::peek(seam::PTRACE_PEEKUSER, t, DR_OFFSET + 8 * 7) {
+                if dr7 & 0xff != 0 {
+                    rep.push(format!("DR7 of task {t} is {dr7:#x} at detach"));
+                }
+            }
+        }
+        self.report = Some(rep);
+    }
+    fn as_any(&mut self) -> &mut dyn std::any::Any {
+        self
+    }
+}
+
+/// offsetof(struct user, u_debugreg)
+pub const DR_OFFSET: u64 = 848;
+
 fn ld_debug_state(path: &str) -> Option<u64> {
     use object::{Object, ObjectSymbol};
     let data = std::fs::read(path).ok()?;
@@ -1013,20 +1489,26 @@ struct Mix {
     next: usize,
     finish: usize,
     restart: usize,
+    call: usize,
+    watch: usize,
+    end: usize,
 }
 
 fn mix_for(property: &str) -> Mix {
     match property {
-        "C01" => Mix { bp: 30, rm: 14, cont: 44, stepi: 8, step: 1, next: 1, finish: 2, restart: 0 },
-        "C03" => Mix { bp: 8, rm: 3, cont: 14, stepi: 15, step: 22, next: 22, finish: 16, restart: 0 },
-        "C05" => Mix { bp: 12, rm: 3, cont: 25, stepi: 35, step: 10, next: 5, finish: 10, restart: 0 },
-        _ => Mix { bp: 18, rm: 8, cont: 26, stepi: 10, step: 12, next: 12, finish: 12, restart: 2 },
+        "C01" => Mix { bp: 30, rm: 14, cont: 44, stepi: 8, step: 1, next: 1, finish: 2, restart: 0, call: 0, watch: 0, end: 0 },
+        "C03" => Mix { bp: 8, rm: 3, cont: 14, stepi: 15, step: 22, next: 22, finish: 16, restart: 0, call: 0, watch: 0, end: 0 },
+        "C05" => Mix { bp: 12, rm: 3, cont: 25, stepi: 35, step: 10, next: 5, finish: 10, restart: 0, call: 0, watch: 0, end: 0 },
+        "C11" => Mix { bp: 20, rm: 6, cont: 30, stepi: 6, step: 5, next: 5, finish: 5, restart: 10, call: 2, watch: 5, end: 6 },
+        "C14" => Mix { bp: 8, rm: 2, cont: 18, stepi: 6, step: 2, next: 2, finish: 6, restart: 6, call: 0, watch: 48, end: 2 },
+        "C16" => Mix { bp: 14, rm: 4, cont: 22, stepi: 8, step: 5, next: 5, finish: 5, restart: 1, call: 34, watch: 1, end: 1 },
+        _ => Mix { bp: 16, rm: 8, cont: 22, stepi: 8, step: 10, next: 10, finish: 10, restart: 3, call: 5, watch: 5, end: 3 },
     }
 }
 
 fn gen_op(s: &Session, t: &mut Tape, mix: &Mix, stmt_lines: &[u64], fns: &[String]) -> Op {
     let tr = s.tr;
-    let total = mix.bp + mix.rm + mix.cont + mix.stepi + mix.step + mix.next + mix.finish + mix.restart;
+    let total = mix.bp + mix.rm + mix.cont + mix.stepi + mix.step + mix.next + mix.finish + mix.restart + mix.call + mix.watch + mix.end;
     let mut k = t.choose(total);
     let mut take = |w: usize| {
         if k < w {
@@ -1081,10 +1563,48 @@ fn gen_op(s: &Session, t: &mut Tape, mix: &Mix, stmt_lines: &[u64], fns: &[Strin
     if take(mix.finish) {
         return Op::Finish;
     }
+    if take(mix.call) {
+        let lits: [i64; 12] = [0, 1, -1, 2, 255, 256, 65535, 65536, i32::MAX as i64, i32::MIN as i64, i64::MAX, i64::MIN];
+        let mut l = |t: &mut Tape| lits[t.choose(lits.len())];
+        return match t.choose(9) {
+            0 => Op::Call("probe0".into(), vec![]),
+            1 | 2 => Op::Call("probe2".into(), vec![l(t), l(t)]),
+            3 | 4 => Op::Call("probe3".into(), vec![l(t), l(t), l(t)]),
+            5 | 6 => Op::Call("probe6".into(), vec![l(t), l(t), l(t), l(t), t.choose(2) as i64, l(t).unsigned_abs() as i64 & 0xffff]),
+            _ => Op::CallBad(t.choose(5) as u8),
+        };
+    }
+    if take(mix.watch) {
+        let cands: Vec<u64> = ["TICK", "CALLN", "CALLLOG"].iter().filter_map(|n| s.data.get(*n).copied()).collect();
+        let wl: Vec<(u32, u64)> = s.watches.iter().map(|(n, w)| (*n, w.0)).collect();
+        return match t.choose(10) {
+            0..=5 if !cands.is_empty() => {
+                let base = cands[t.choose(cands.len())];
+                let sz = [1u8, 2, 4, 8][t.choose(4)];
+                // mostly aligned, sometimes not; a handful of distinct locations
+                let slot = t.choose(6) as u64;
+                let a = if t.chance(1, 8) { base + slot * 8 + 1 + t.choose(6) as u64 } else { base + slot * 8 };
+                Op::WatchMem(a, sz, t.chance(1, 2))
+            }
+            6 | 7 if !wl.is_empty() => Op::RmWatchNum(wl[t.choose(wl.len())].0),
+            8 if !wl.is_empty() => Op::RmWatchAddr(wl[t.choose(wl.len())].1),
+            _ => {
+                if t.chance(1, 2) {
+                    Op::RmWatchNum(500 + t.choose(5) as u32)
+                } else {
+                    Op::RmWatchAddr(cands.first().copied().unwrap_or(0x1000) + 8 * t.choose(8) as u64)
+                }
+            }
+        };
+    }
+    if take(mix.end) {
+        return if t.chance(1, 2) { Op::Detach } else { Op::Drop };
+    }
     Op::Restart
 }
 
 pub fn run(spec: &WorkerSpec) -> WorkerResult {
+    let t_all = std::time::Instant::now();
     let bin = Path::new(&spec.bin);
     let tr = match reftrace::trace_cached(bin) {
         Ok(t) => t,
@@ -1099,10 +1619,12 @@ pub fn run(spec: &WorkerSpec) -> WorkerResult {
         None => Tape::record(spec.seed),
     };
     seam::start_recording();
+    let t_new = std::time::Instant::now();
     let mut s = match Session::new(spec, &tr, &lt) {
         Ok(s) => s,
         Err(e) => return WorkerResult { verdict: "harness_error".into(), detail: e, ..Default::default() },
     };
+    add(&mut s.stats, "time_us.session_new", t_new.elapsed().as_micros() as u64);
     let stmt_lines: Vec<u64> = lt.stmt_lines(s.file_id).into_iter().collect();
     let fns = spec.program.functions.clone();
     let mix = mix_for(&spec.property);
@@ -1111,7 +1633,7 @@ pub fn run(spec: &WorkerSpec) -> WorkerResult {
     // before start: a few breakpoint requests
     let pre = tape.choose(4);
     for _ in 0..pre {
-        let m = Mix { bp: 10, rm: 2, cont: 0, stepi: 0, step: 0, next: 0, finish: 0, restart: 0 };
+        let m = Mix { bp: 10, rm: 2, cont: 0, stepi: 0, step: 0, next: 0, finish: 0, restart: 0, call: 0, watch: 0, end: 0 };
         let op = gen_op(&s, &mut tape, &m, &stmt_lines, &fns);
         s.exec(&op);
     }
@@ -1120,6 +1642,7 @@ pub fn run(spec: &WorkerSpec) -> WorkerResult {
         s.exec(&op);
     }
     s.exec(&Op::Start);
+    let mut dropped_early = false;
     for _ in 0..nops {
         if let Ok(mut p) = crate::PARTIAL.lock() {
             p.1 = tape.rec.clone();
@@ -1131,10 +1654,21 @@ pub fn run(spec: &WorkerSpec) -> WorkerResult {
         if matches!(op, Op::Restart) && !spec.params.contains_key("allow_restart") {
             continue;
         }
+        if matches!(op, Op::Drop) {
+            s.step_no += 1;
+            let d = format!("{:3} Drop @ {:?}", s.step_no, s.pos);
+            s.logf(d);
+            bump(&mut s.stats, "op.Drop");
+            dropped_early = true;
+            break;
+        }
         s.exec(&op);
+        if matches!(op, Op::Detach) {
+            break;
+        }
     }
     // C02 (iii): remove every breakpoint, run to completion, compare with the native run
-    if s.pos != Where::Exited {
+    if s.pos != Where::Exited && !dropped_early && !s.detached {
         let nums: Vec<u32> = s.armed.values().copied().collect();
         for n in nums {
             s.exec(&Op::RmNum(n));
@@ -1142,7 +1676,7 @@ pub fn run(spec: &WorkerSpec) -> WorkerResult {
         s.exec(&Op::Continue);
     }
     s.drain_output();
-    if s.pos == Where::Exited && s.restarts == 0 {
+    if s.pos == Where::Exited && s.restarts == 0 && s.calls_made == 0 && !dropped_early {
         bump(&mut s.stats, "c02.output_checked");
         // give the pipe a moment: the writer side is closed once the debugger is dropped
         let out = String::from_utf8_lossy(&s.stdout).to_string();
@@ -1155,10 +1689,29 @@ pub fn run(spec: &WorkerSpec) -> WorkerResult {
             }
         }
     }
+    let state_at_drop = s.pos;
     let dbg = s.dbg.take();
     drop(dbg);
+    // C11: after the debugger is gone nothing it launched is left alive in the namespace
+    {
+        let t0 = std::time::Instant::now();
+        let mut left: Vec<(i32, char, String)>;
+        loop {
+            left = ns::all_processes().into_iter().filter(|(p, st, _)| *p > 2 && *st != 'Z').collect();
+            if left.is_empty() || t0.elapsed().as_millis() > 1500 {
+                break;
+            }
+            std::thread::yield_now();
+        }
+        bump(&mut s.stats, "c11.drop_checked");
+        bump(&mut s.stats, &format!("c11.drop_in_state_{}", match state_at_drop { Where::NotStarted => "not_started", Where::At(_) => "stopped", Where::Foreign { .. } => "stopped_foreign", Where::Exited => "exited" }));
+        if !left.is_empty() {
+            s.violate("C11", "process_left_behind", format!("after dropping the debugger (state {state_at_drop:?}) live processes remain: {left:?}"));
+        }
+    }
     let mut stats = s.stats.clone();
     add(&mut stats, "positions", tr.pos.len() as u64);
+    add(&mut stats, "time_us.total", t_all.elapsed().as_micros() as u64);
     let verdict = if s.violations.is_empty() { "ok" } else { "violation" };
     WorkerResult { verdict: verdict.into(), violations: s.violations.clone(), detail: String::new(), log: s.log.clone(), tape: tape.rec.clone(), stats, ops: s.step_no, seam_calls: seam::N_PTRACE.load(std::sync::atomic::Ordering::Relaxed) + seam::N_WAIT.load(std::sync::atomic::Ordering::Relaxed) }
 }
